@@ -7,7 +7,7 @@ RULE = ("random histories (quick: 12 steps, thorough: up to 40) over up to 6 sim
         ">>, <<, T, joins, aggregate, window, sort, arithmetic, comparison, fillna, column views by attribute / name / cols(), "
         "attribute assignment, renames, vector and table item assignment in every key form, fingerprint, repr, drop, gc); "
         "after a derivation the next step is with probability 0.55 an in-place write through one of the objects involved; plus "
-        "~150 scripted histories: every derivation with a degenerate partner or key (its own empty slice, itself, an empty vector "
+        "~600 scripted histories: every derivation with a degenerate partner or key (its own empty slice, itself, an empty vector "
         "or table, whole-range slice, all-True mask, all columns selected, double transpose, identity arithmetic) followed by "
         "every write form through the result and through the source. "
         "After EVERY step every live handle is observed through the public API (elements, dtype, name per column) and must "
@@ -33,7 +33,8 @@ LEVEL_NOTE = ("Trusted: Lean kernel + standard axioms; the translation of API st
               "(counts in the evidence).")
 
 DERIVE = {"newvec", "newtab", "tabfrom", "copy", "slice", "mask", "select", "stack", "stackvt", "stackdict", "stackdictv", "append", "appendt", "T",
-          "sort", "sortv", "aggregate", "window", "join", "arith", "tarith", "compare", "unary", "fillna", "sharevec"}
+          "sort", "sortv", "aggregate", "window", "join", "arith", "tarith", "compare", "unary", "fillna", "sharevec",
+          "keep", "concat", "sel2d"}
 
 
 def model_op(st, res, extra, obs):
@@ -46,6 +47,8 @@ def model_op(st, res, extra, obs):
         if op in ("tabwrite", "setattr", "setattr_list", "rename", "renames") and obs[st["t"]] is not None and obs[st["t"]]["k"] == "t":
             return {"m": "tabmutate", "t": st["t"]}
         return {"m": "noop"}
+    if op == "keep" and not extra.get("kept"):
+        return {"m": "noop"}            # the operation gave no vector / table (a scalar, a list …): nothing was stored
     if op in DERIVE:
         if extra.get("note") == "dropped-unmodelled" or obs[st["dst"]] is None:
             return {"m": "drop", "r": st["dst"]}
@@ -112,6 +115,31 @@ def degenerate_histories():
         [{"op": "getcol", "dst": 1, "t": 0, "j": 0, "how": "cols"}, {"op": "setattr", "t": 0, "j": 0, "src": 1},
          {"op": "slice", "dst": 2, "src": 0, "key": FULL}],
     ]
+    # derivations through the second indexing dimension, Vector-valued keys, kept results of "nothing to do" operations and the other
+    # constructor spellings (each must give a NEW object also when it selects everything / changes nothing)
+    tab_derives += [[{"op": "sel2d", "dst": 2, "src": 0, "rows": rows, "cols": cols}]
+                    for rows in (FULL, ["slice", 0, 3, None]) for cols in (["int", 0], ["name", "a"], ["slice", None, None], ["slice", 0, 2],
+                                                                           ["names", ["a", "b"]], ["names", ["a"]])]
+    tab_derives += [[{"op": "keep", "dst": 2, "r": 0, "f": f}] for f in sorted(H.KEEP_T)]
+    tab_derives += [[{"op": "mask", "dst": 2, "src": 0, "mask": [True, True, True], "how": "vec"}],
+                    [{"op": "mask", "dst": 2, "src": 0, "mask": [], "take": [0, 1, 2], "how": "vec"}],
+                    [{"op": "getcol", "dst": 1, "t": 0, "j": 0, "how": "cols"}, {"op": "tabfrom", "dst": 2, "srcs": [1], "form": "dict"}],
+                    [{"op": "getcol", "dst": 1, "t": 0, "j": 0, "how": "cols"}, {"op": "tabfrom", "dst": 2, "srcs": [1, 1], "form": "vector"}],
+                    [{"op": "getcol", "dst": 1, "t": 0, "j": 0, "how": "cols"}, {"op": "tabfrom", "dst": 2, "srcs": [1, 1], "form": "rshift"}],
+                    # a table-level write whose VALUE is a live vector / table: the value is read, never adopted
+                    [{"op": "newvec", "dst": 1, "vals": [4, 5, 6], "name": "v"}, {"op": "copy", "dst": 2, "src": 0},
+                     {"op": "tabwrite", "t": 2, "form": "colslot", "col": 0, "src": 1, "rows": "all"},
+                     {"op": "write", "r": 1, "key": ["int", 0], "val": ["scalar", 8]}],
+                    [{"op": "newvec", "dst": 1, "vals": [4, 5, 6], "name": "v"}, {"op": "copy", "dst": 2, "src": 0},
+                     {"op": "tabwrite", "t": 2, "form": "colslot", "col": 0, "src": 1, "rows": "range"},
+                     {"op": "write", "r": 1, "key": ["int", 0], "val": ["scalar", 8]}],
+                    [{"op": "copy", "dst": 2, "src": 0}, {"op": "tabwrite", "t": 2, "form": "tabslot", "src": 0, "how": "whole"}],
+                    [{"op": "copy", "dst": 2, "src": 0}, {"op": "tabwrite", "t": 2, "form": "tabslot", "src": 0, "how": "region"}],
+                    [{"op": "copy", "dst": 2, "src": 0}, {"op": "tabwrite", "t": 2, "form": "tabslot", "src": 2, "how": "whole"}],
+                    [{"op": "getcol", "dst": 1, "t": 0, "j": 0, "how": "cols"}, {"op": "copy", "dst": 2, "src": 0},
+                     {"op": "tabwrite", "t": 2, "form": "colslot", "col": 0, "src": 1, "rows": "all"}],
+                    [{"op": "getcol", "dst": 1, "t": 0, "j": 0, "how": "cols"}, {"op": "copy", "dst": 2, "src": 0},
+                     {"op": "setattr", "t": 2, "j": 0, "src": 1, "indexed": True}]]
     tab_writes = [{"op": "tabwrite", "t": 2, "form": "cell", "row": 0, "col": 0, "val": 9},
                   {"op": "tabwrite", "t": 2, "form": "rowslice", "start": 0, "stop": 2, "val": 7},
                   {"op": "rename", "t": 2, "old": "a", "new": "r1"},
@@ -131,6 +159,18 @@ def degenerate_histories():
         [{"op": "unary", "dst": 1, "a": 0}, {"op": "unary", "dst": 2, "a": 1}], [{"op": "sharevec", "dst": 2, "src": 0}],
         [{"op": "tabfrom", "dst": 1, "srcs": [0], "form": "list"}, {"op": "getcol", "dst": 2, "t": 1, "j": 0, "how": "cols"}],
     ]
+    vec_derives += [[{"op": "keep", "dst": 2, "r": 0, "f": f}] for f in sorted(H.KEEP_V)]
+    vec_derives += [[{"op": "mask", "dst": 2, "src": 0, "mask": [True, True, True], "how": "vec"}],
+                    [{"op": "mask", "dst": 2, "src": 0, "mask": [], "take": [0, 1, 2], "how": "list"}],
+                    [{"op": "mask", "dst": 2, "src": 0, "mask": [], "take": [0, 1, 2], "how": "vec"}],
+                    [{"op": "copy", "dst": 2, "src": 0, "how": "ctor"}], [{"op": "copy", "dst": 2, "src": 0, "how": "named"}],
+                    [E, {"op": "concat", "dst": 2, "a": 0, "b": ["slot", 1]}], [E, {"op": "concat", "dst": 2, "a": 1, "b": ["slot", 0]}],
+                    [{"op": "concat", "dst": 2, "a": 0, "b": ["list", []]}], [{"op": "concat", "dst": 2, "a": 0, "b": ["list", []], "rev": True}],
+                    # a write whose VALUE or KEY is a live vector: it is read, never adopted
+                    [{"op": "copy", "dst": 2, "src": 0}, {"op": "write", "r": 2, "key": FULL, "val": ["vslot", 0]}],
+                    [{"op": "copy", "dst": 2, "src": 0}, {"op": "write", "r": 2, "key": ["slice", 0, 3, None], "val": ["vslot", 0]}],
+                    [{"op": "copy", "dst": 2, "src": 0}, {"op": "write", "r": 2, "key": ["kslot", 0], "val": ["vslot", 0]}],
+                    [{"op": "copy", "dst": 2, "src": 0}, {"op": "write", "r": 2, "key": ["vmask", [True, True, True]], "val": ["vslot", 0]}]]
     for d in vec_derives:
         for wr in ({"op": "write", "r": 2, "key": ["int", 0], "val": ["scalar", 9]},
                    {"op": "write", "r": 2, "key": ["slice", 0, 2, None], "val": ["scalar", 1.5]}, {"op": "setname", "r": 2, "name": "zz"}):
